@@ -47,7 +47,7 @@ def main():
         rc, o = sh(["go", "test", "-vet=off", "-count=1"] + tagargs + ["-run", f"^{tname}$", "."], cwd=wt)
         confirm["demo_with_patch"] = "PASS" if rc == 0 else "FAIL"
         os.remove(os.path.join(wt, "zz_demo_test.go"))
-        rc, o = sh("go test -vet=off -count=1 . ./internal/... ./native/... 2>&1 | grep -E '^--- FAIL' | grep -v -E 'TestSaveLoadNumpy|TestDense_SVD|TestDense_SubScalar_reuse'", cwd=wt)
+        rc, o = sh("go test -vet=off -count=1 . ./internal/... ./native/... 2>&1 | grep -E '^--- FAIL' | grep -v -E 'TestSaveLoadNumpy|TestDense_SVD|TestDense_SubScalar_reuse|TestFloat64Engine_makeArray|TestFloat32Engine_makeArray'", cwd=wt)
         confirm["suite_other_failures"] = o.strip()
     finally:
         sh(["git", "-C", "/repo", "worktree", "remove", "--force", wt])
